@@ -379,7 +379,12 @@ pub fn run(ctx: &Ctx, rep: &mut Report) {
                     let app_fails = with_data && rng.chance(1, 4);
                     if with_data {
                         let a = w.app.clone();
-                        w.u.setup(move |env| ProbeExecutableClient::new(env, &a).set_fail(&app_fails));
+                        let fk = rng.below(2) as u32;
+                        w.u.setup(move |env| {
+                            let c = ProbeExecutableClient::new(env, &a);
+                            c.set_fail(&app_fails);
+                            c.set_fail_kind(&fk);
+                        });
                     }
                     let data = if with_data { rng.bytes_of(&[1, 40]) } else { vec![] };
                     let source = rng.bytes_of(&[0, 20]);
